@@ -31,6 +31,7 @@ CONSTANTS Deviations,      \* subset of AllDevs
           Menu,            \* items allowed in a one-item model
           MultiMenu,       \* items allowed in models of two items
           TripleMenu,      \* items allowed in models of three and more items
+          VarMenu, VarVersions, \* further one-item models (parameter sweeps) and the opsets they are tried with
           MaxItems,
           Sources, Targets, \* opset ranges
           Emitting         \* print one CASE line per finished configuration
@@ -94,44 +95,61 @@ Means(sem, v) ==
     [] sem = "gn.chan.eps"  -> IF v >= 21 THEN "other" ELSE "norun" \* per channel, but epsilon lost
     [] OTHER                -> "ok"                                 \* plain, dft.def.r3, gn.both, call, ...
 
+\* Item parameters: one uniform record; every kind reads its own fields.  The harness builds the
+\* concrete node from exactly these values (ax = 99: no axis given; al = -1, md/pd = "": attribute absent).
+D == [ax |-> 99, rk |-> 0, os |-> 0, iv |-> 0, ln |-> 0, md |-> "", pd |-> "", al |-> -1,
+      ch |-> 0, gr |-> 0, ep |-> 0, nb |-> 0, sh |-> "", big |-> FALSE, ovr |-> FALSE]
+Dft(ax, rk, os, iv, ln) == [D EXCEPT !.ax = ax, !.rk = rk, !.os = os, !.iv = iv, !.ln = ln]
+Gs(md, pd, al) == [D EXCEPT !.md = md, !.pd = pd, !.al = al]
+Gn(ch, gr, ep, rk, nb, sh) == [D EXCEPT !.ch = ch, !.gr = gr, !.ep = ep, !.rk = rk, !.nb = nb, !.sh = sh]
+AddP(big, ovr) == [D EXCEPT !.big = big, !.ovr = ovr]
+
 \* The concrete node(s) of an item kind at source opset sv (what the harness builds)
 GNSem(sv) == IF sv < 21 THEN "gn.group" ELSE "gn.chan"
-KindNodes(kind, sv) ==
+KindNodes(kind, par, sv) ==
   CASE kind = "relu"   -> <<N("Relu", 1, {}, "plain", "")>>
     [] kind = "cast"   -> <<N("Cast", 1, {"to"}, "plain", "int")>>
     [] kind = "custom" -> <<[N("Gelu", 1, {}, "plain", "") EXCEPT !.dom = "com.microsoft"]>>
-    [] kind \in {"add_small", "add_big", "add_ovr"} -> <<N("Add", 2, {}, "plain", "")>>
-    [] kind = "dft_axis" -> IF sv < 20 THEN <<N("DFT", 1, {"axis"}, "dft.attr", "")>>
-                            ELSE <<N("DFT", 3, {}, "dft.in", "")>>
-    [] kind = "dft_noaxis_r3" -> <<N("DFT", 1, {}, "dft.def.r3", "")>>
-    [] kind = "dft_noaxis_r4" -> <<N("DFT", 1, {}, IF sv < 20 THEN "dft.def1.r4" ELSE "dft.defm2.r4", "")>>
-    [] kind \in {"gs_bilinear", "gs_bicubic"} -> <<N("GridSample", 2, {"mode"}, IF sv < 20 THEN "gs.old" ELSE "gs.new", "")>>
-    [] kind = "gs_nearest" -> <<N("GridSample", 2, {"mode"}, "plain", "")>>
-    [] kind = "gn_group" -> <<N("GroupNormalization", 3, {"num_groups"}, GNSem(sv), "known")>>
-    [] kind = "gn_eps" -> <<N("GroupNormalization", 3, {"epsilon", "num_groups"}, GNSem(sv), "known")>>
-    [] kind = "gn_g_eq_c" -> <<N("GroupNormalization", 3, {"num_groups"}, "gn.both", "geqc")>>
-    [] kind = "gn_symc" -> <<N("GroupNormalization", 3, {"num_groups"}, GNSem(sv), "symc")>>
-    [] kind = "gn_noxshape" -> <<N("Identity", 1, {}, "plain", ""),
-                                 N("GroupNormalization", 3, {"num_groups"}, GNSem(sv), "nox")>>
-    [] kind = "gn_noscaleshape" -> <<N("Identity", 1, {}, "plain", ""), N("Identity", 1, {}, "plain", ""),
-                                     N("GroupNormalization", 3, {"num_groups"}, GNSem(sv), "nosc")>>
+    [] kind = "add"    -> <<N("Add", 2, {}, "plain", "")>>        \* x + initializer (par.big / par.ovr)
+    [] kind = "dft" ->
+         \* DFT-17: axis/inverse/onesided attributes, inputs (x, dft_length?); default axis 1
+         \* DFT-20: inverse/onesided attributes, inputs (x, dft_length?, axis?); default axis -2
+         IF par.ax = 99
+         THEN <<N("DFT", 1, {}, IF par.rk = 3 THEN "dft.def.r3"        \* axis 1 = -2 on rank 3
+                                ELSE IF sv < 20 THEN "dft.def1.r4" ELSE "dft.defm2.r4", "")>>
+         ELSE LET flags == (IF par.os = 1 THEN {"onesided"} ELSE {}) \cup (IF par.iv = 1 THEN {"inverse"} ELSE {}) IN
+              IF sv < 20 THEN <<N("DFT", IF par.ln > 0 THEN 2 ELSE 1, {"axis"} \cup flags, "dft.attr", "")>>
+              ELSE <<N("DFT", 3, flags, "dft.in", "")>>
+    [] kind = "gs" ->
+         \* mode names bilinear/bicubic (GridSample-16) became linear/cubic in GridSample-20
+         LET attrs == (IF par.md # "" THEN {"mode"} ELSE {}) \cup (IF par.pd # "" THEN {"padding_mode"} ELSE {})
+                      \cup (IF par.al >= 0 THEN {"align_corners"} ELSE {}) IN
+         <<N("GridSample", 2, attrs, IF par.md \in {"bilinear", "bicubic"}
+                                      THEN (IF sv < 20 THEN "gs.old" ELSE "gs.new") ELSE "plain", "")>>
+    [] kind = "gn" ->
+         LET attrs == {"num_groups"} \cup (IF par.ep = 1 THEN {"epsilon"} ELSE {})
+             gn == IF par.ch = par.gr THEN N("GroupNormalization", 3, attrs, "gn.both", "geqc")
+                   ELSE N("GroupNormalization", 3, attrs, GNSem(sv), par.sh)
+             id == N("Identity", 1, {}, "plain", "") IN
+         CASE par.sh = "nox" -> <<id, gn>>                             \* x has no shape information
+           [] par.sh = "nosc" -> <<id, id, gn>>                        \* scale and bias have none
+           [] OTHER -> <<gn>>
 \* initializers an item brings: <<name suffix, big (> 1000 elements), also a graph input>>
-KindInits(kind, sv) ==
-  CASE kind = "add_small" -> {<<"w", FALSE, FALSE>>}
-    [] kind = "add_big"   -> {<<"w", TRUE, FALSE>>}
-    [] kind = "add_ovr"   -> {<<"w", FALSE, TRUE>>}
-    [] kind = "dft_axis" /\ sv >= 20 -> {<<"ax", FALSE, FALSE>>}
+KindInits(kind, par, sv) ==
+  CASE kind = "add" -> {<<"w", par.big, par.ovr>>}
+    [] kind = "dft" /\ par.ax # 99 -> (IF sv >= 20 THEN {<<"ax", FALSE, FALSE>>} ELSE {})
+                                      \cup (IF par.ln > 0 THEN {<<"ln", FALSE, FALSE>>} ELSE {})
     [] OTHER -> {}
 \* graph inputs of an item (name suffixes), in order; the overridable initializer is among them
-KindInputs(kind) ==
-  CASE kind \in {"gs_bilinear", "gs_bicubic", "gs_nearest"} -> <<"x", "g">>
-    [] kind \in {"gn_group", "gn_eps", "gn_g_eq_c", "gn_symc", "gn_noxshape", "gn_noscaleshape"} -> <<"x", "sc", "b">>
-    [] kind = "add_ovr" -> <<"x", "w">>
+KindInputs(kind, par) ==
+  CASE kind = "gs" -> <<"x", "g">>
+    [] kind = "gn" -> <<"x", "sc", "b">>
+    [] kind = "add" /\ par.ovr -> <<"x", "w">>
     [] OTHER -> <<"x">>
 
 Tag(ns, p, i) == [k \in DOMAIN ns |-> [ns[k] EXCEPT !.place = p, !.item = i]]
 ItemNodes(it, i, sv) ==
-  LET body == KindNodes(it.kind, sv) IN
+  LET body == KindNodes(it.kind, it.par, sv) IN
   CASE it.place = "top" -> Tag(body, "top", i)
     [] it.place = "func" -> <<[N("F", 0, {}, "call", "") EXCEPT !.dom = "local", !.item = i]>> \o Tag(body, "func", i)
     [] it.place = "ifbody" ->
@@ -145,11 +163,11 @@ AllNodes(its, i, sv) == IF i > Len(its) THEN <<>> ELSE ItemNodes(its[i], i, sv) 
 Name(i, suffix) == <<i, suffix>>
 RECURSIVE AllInputs(_, _)
 AllInputs(its, i) == IF i > Len(its) THEN <<>>
-                     ELSE LET ks == KindInputs(its[i].kind) IN
+                     ELSE LET ks == KindInputs(its[i].kind, its[i].par) IN
                           [k \in DOMAIN ks |-> Name(i, ks[k])]
                           \o (IF its[i].place = "ifbody" THEN <<Name(i, "c")>> ELSE <<>>)
                           \o AllInputs(its, i + 1)
-InitRecs(its, sv) == UNION {{[name |-> Name(i, r[1]), big |-> r[2], isInput |-> r[3]] : r \in KindInits(its[i].kind, sv)} : i \in DOMAIN its}
+InitRecs(its, sv) == UNION {{[name |-> Name(i, r[1]), big |-> r[2], isInput |-> r[3]] : r \in KindInits(its[i].kind, its[i].par, sv)} : i \in DOMAIN its}
 InitNames(its, sv) == {r.name : r \in InitRecs(its, sv)}
 BigInits(its, sv) == {r.name : r \in {q \in InitRecs(its, sv) : q.big}}
 FuncIds(its) == {i \in DOMAIN its : its[i].place = "func"}
@@ -211,9 +229,12 @@ CApiNode(n, from, to) ==
    ELSE [n EXCEPT !.ver = 0]
 
 -----------------------------------------------------------------------------
-I(k, p) == [kind |-> k, place |-> p]
+I(k, p, par) == [kind |-> k, place |-> p, par |-> par]
 \* (the first item of a longer model must already come from the smaller menu: models grow by AddItem)
-Admissible(its) == CASE Len(its) = 1 -> its[1] \in Menu
+\* items of VarMenu (the attribute/shape domains of the adapter ops) form one-item models, for the
+\* opset pairs in VarVersions x VarVersions
+Admissible(its) == CASE Len(its) = 1 -> \/ its[1] \in Menu
+                                        \/ its[1] \in VarMenu /\ s \in VarVersions /\ t \in VarVersions
                      [] Len(its) = 2 -> \A i \in DOMAIN its : its[i] \in MultiMenu
                      [] OTHER -> \A i \in DOMAIN its : its[i] \in TripleMenu
 
@@ -232,7 +253,7 @@ irVars == <<nodes, funcs, fnDecl, declared, gin, ginit>>
 loopVars == <<cur, fv, modified, clash>>
 
 AddItem == /\ pc = "build" /\ Len(items) < MaxItems
-           /\ \E it \in Menu \cup MultiMenu \cup TripleMenu :
+           /\ \E it \in Menu \cup VarMenu \cup MultiMenu \cup TripleMenu :
                  /\ Admissible(Append(items, it))
                  /\ items' = Append(items, it)
            /\ UNCHANGED <<s, t, entry, fb, pc, path, orig, used>> /\ UNCHANGED irVars
@@ -480,17 +501,48 @@ NoRefusal == ~(Finished /\ path \in {"raised", "fallback_failed", "unsupported"}
 
 -----------------------------------------------------------------------------
 (* configurations *)
-AnyPlace == {"relu", "cast", "custom", "dft_axis", "dft_noaxis_r4", "gs_bilinear", "gs_bicubic", "gn_group"}
-TopOnly == {"add_small", "add_big", "add_ovr", "dft_noaxis_r3", "gs_nearest", "gn_g_eq_c", "gn_eps",
-            "gn_noxshape", "gn_symc", "gn_noscaleshape"}
-MenuAll == {I(k, p) : k \in AnyPlace, p \in {"top", "ifbody", "func"}} \cup {I(k, "top") : k \in TopOnly}
-MultiQuick == {I("dft_axis", "top"), I("dft_axis", "ifbody"), I("gn_group", "func"), I("gn_noxshape", "top"), I("add_big", "top")}
-MultiThorough == {I("dft_axis", "top"), I("dft_axis", "ifbody"), I("gn_group", "func"), I("gn_noxshape", "top"),
-                  I("gs_bilinear", "top"), I("add_big", "top"), I("add_ovr", "top"), I("custom", "top"),
-                  I("dft_noaxis_r4", "func"), I("relu", "ifbody")}
+Places == {"top", "ifbody", "func"}
+DftAxis == Dft(2, 4, 0, 0, 0)            \* DFT over axis 2 of [2,3,4,1]
+DftNoAxis4 == Dft(99, 4, 0, 0, 0)
+GnGroup == Gn(6, 2, 0, 3, 1, "known")    \* 6 channels, 2 groups
+AnyPlaceItems == {<<"relu", D>>, <<"cast", D>>, <<"custom", D>>, <<"dft", DftAxis>>, <<"dft", DftNoAxis4>>,
+                  <<"gs", Gs("bilinear", "", -1)>>, <<"gs", Gs("bicubic", "", -1)>>, <<"gn", GnGroup>>}
+TopItems == {<<"dft", Dft(99, 3, 0, 0, 0)>>, <<"gs", Gs("nearest", "", -1)>>, <<"gn", Gn(6, 6, 0, 3, 1, "known")>>,
+             <<"gn", Gn(6, 2, 1, 3, 1, "known")>>, <<"gn", Gn(6, 2, 0, 3, 1, "nox")>>,
+             <<"gn", Gn(6, 2, 0, 3, 1, "symc")>>, <<"gn", Gn(6, 2, 0, 3, 1, "nosc")>>}
+\* initializer kinds: {<= 1000, > 1000 elements} x {plain, also a graph input} x {main graph, used in a subgraph}
+AddItems == {I("add", p, AddP(b, o)) : p \in {"top", "ifbody"}, b \in BOOLEAN, o \in BOOLEAN}
+MenuAll == {I(k[1], p, k[2]) : k \in AnyPlaceItems, p \in Places} \cup {I(k[1], "top", k[2]) : k \in TopItems} \cup AddItems
+
+\* parameter sweeps of the three adapter ops: every legal axis (the last dimension is the complex
+\* one), flags, dft_length; every GridSample mode x padding x align_corners and "all defaults";
+\* GroupNormalization channel/group/epsilon/rank/batch combinations
+DftPars == {Dft(a, 4, 0, 0, 0) : a \in {0, 1, 2, -2, -3, -4}} \cup {Dft(a, 3, 0, 0, 0) : a \in {0, 1, -2, -3}}
+           \cup {Dft(1, 3, 1, 0, 0), Dft(0, 4, 1, 0, 0), Dft(2, 4, 0, 1, 0), Dft(0, 3, 0, 1, 0),
+                 Dft(1, 3, 0, 0, 5), Dft(-2, 4, 1, 0, 3), Dft(0, 4, 0, 0, 3)}
+GsPars == {Gs(m, pd, a) : m \in {"bilinear", "bicubic", "nearest"}, pd \in {"zeros", "border", "reflection"}, a \in {0, 1}}
+          \cup {Gs("", "", -1), Gs("", "border", 1)}
+GnPars == {Gn(6, 3, 0, 3, 1, "known"), Gn(4, 2, 0, 3, 1, "known"), Gn(6, 1, 0, 3, 1, "known"), Gn(8, 4, 1, 3, 2, "known"),
+           Gn(6, 2, 0, 4, 2, "known"), Gn(6, 3, 1, 4, 1, "known"), Gn(1, 1, 0, 3, 1, "known"), Gn(4, 4, 1, 4, 2, "known"),
+           Gn(4, 2, 0, 4, 1, "nox"), Gn(6, 3, 0, 3, 2, "nosc")}
+VarAll == ({I("dft", "top", q) : q \in DftPars} \cup {I("gs", "top", q) : q \in GsPars} \cup {I("gn", "top", q) : q \in GnPars})
+VarQuick == VarAll \ MenuAll
+VarThorough == (VarAll \cup {I("dft", p, q) : p \in {"ifbody", "func"}, q \in DftPars}
+                       \cup {I("gs", p, q) : p \in {"ifbody", "func"}, q \in GsPars}
+                       \cup {I("gn", p, q) : p \in {"ifbody", "func"}, q \in {g \in GnPars : g.sh = "known"}}) \ MenuAll
+VarVersionsQuick == {18, 19, 20, 21, 23}
+NoItems == {}
+
+MultiQuick == {I("dft", "top", DftAxis), I("dft", "ifbody", DftAxis), I("gn", "top", Gn(6, 2, 0, 3, 1, "nox")),
+               I("add", "top", AddP(TRUE, FALSE))}
+MultiThorough == {I("dft", "top", DftAxis), I("dft", "ifbody", DftAxis), I("gn", "func", GnGroup),
+                  I("gn", "top", Gn(6, 2, 0, 3, 1, "nox")), I("gs", "top", Gs("bilinear", "", -1)),
+                  I("add", "top", AddP(TRUE, FALSE)), I("add", "ifbody", AddP(TRUE, TRUE)), I("custom", "top", D),
+                  I("dft", "func", DftNoAxis4), I("relu", "ifbody", D)}
 TripleQuick == {}
-TripleThorough == {I("dft_axis", "top"), I("gn_group", "func"), I("gn_noxshape", "top"), I("add_big", "top"), I("gs_bilinear", "ifbody")}
-MenuWitness == {I("dft_axis", "top"), I("add_big", "top"), I("relu", "func")}
+TripleThorough == {I("dft", "top", DftAxis), I("gn", "func", GnGroup), I("gn", "top", Gn(6, 2, 0, 3, 1, "nox")),
+                   I("add", "top", AddP(TRUE, TRUE)), I("gs", "ifbody", Gs("bilinear", "", -1))}
+MenuWitness == {I("dft", "top", DftAxis), I("add", "top", AddP(TRUE, TRUE)), I("relu", "func", D)}
 WitnessVersions == {18, 20, 23}
 AllVersions == 18..25
 NoDevs == {}
